@@ -106,6 +106,12 @@ pub fn vectors(a: &Args) -> i32 {
                 if lib != want {
                     fail("tokens:parse_json_pointer", format!("parse_json_pointer({path:?}) = {lib:?}, specification {want:?}"), &v, &mut failures);
                 }
+                // eval_json_pointer must find the leaf of the object nested along the specification's tokens
+                let mut doc = json!("leaf");
+                for t in want.iter().rev() { doc = Value::Object(serde_json::Map::from_iter([(t.clone(), doc)])); }
+                if repe::eval_json_pointer(&doc, &path) != Some(&json!("leaf")) {
+                    fail("tokens:eval_json_pointer", format!("eval_json_pointer(nested({want:?}), {path:?}) = {:?}", repe::eval_json_pointer(&doc, &path)), &v, &mut failures);
+                }
                 for (router, prefix, tag) in [(&r0, "", "root-mount"), (&rm, "/m", "prefix-mount+mw")] {
                     let full = format!("{prefix}{path}");
                     let req = Message::builder().id(1).query_str(&full).build();
